@@ -21,6 +21,8 @@ func runRound14(c *Ctx, spec *PropSpec) {
 		c02UnsolicitedBytesKeyedOnAwaitedResponse(c)
 		c.Rule("C02.R21", "the client stream handed out for a new try is new, or a slot tested unused (the old try's goroutine may still hold a reused one)", 2)
 		freshStreamPerTry(c, "C02.R21")
+	case "C04":
+		c04ExpressionResultTestedForBool(c)
 	case "C07":
 		c07AutoDetectionOrderIsFixed(c)
 	case "C09":
@@ -314,10 +316,10 @@ func c11InheritMatchesTheAddress(c *Ctx) {
 // and the append / remove / update-hosts entry points go through UpdateHosts.
 func c12UpdatesAreSerialised(c *Ctx) {
 	const rule = "C12.R17"
-	c.Rule(rule, "cluster and host updates of the cluster manager are serialised by one mutex held from before the read of the current state", 3)
+	c.Rule(rule, "cluster updates, host updates and removals of the cluster manager are serialised by one mutex held from before the read of the current state", 4)
 	pkg := "pkg/upstream/cluster"
 	held := map[string]map[string]bool{}
-	for _, name := range []string{"UpdateCluster", "UpdateHosts"} {
+	for _, name := range []string{"UpdateCluster", "UpdateHosts", "RemovePrimaryCluster"} {
 		fn := c.M(pkg, "clusterManager", name)
 		if fn == nil {
 			c.Unresolved(rule, "clusterManager."+name)
@@ -369,12 +371,12 @@ func c12UpdatesAreSerialised(c *Ctx) {
 	}
 	common := ""
 	for f := range held["UpdateCluster"] {
-		if held["UpdateHosts"][f] {
+		if held["UpdateHosts"][f] && held["RemovePrimaryCluster"][f] {
 			common = f
 		}
 	}
-	c.Check(rule, modPkg(pkg)+".clusterManager:one-mutex-for-both", token.NoPos, common != "", "UpdateCluster and UpdateHosts hold the same mutex ("+common+")",
-		"UpdateCluster and UpdateHosts do not hold the same mutex: a host update that overlaps a cluster update is applied to the cluster object that is about to be replaced and is lost")
+	c.Check(rule, modPkg(pkg)+".clusterManager:one-mutex-for-both", token.NoPos, common != "", "UpdateCluster, UpdateHosts and RemovePrimaryCluster hold the same mutex ("+common+")",
+		"UpdateCluster, UpdateHosts and RemovePrimaryCluster do not hold one and the same mutex: a host update that overlaps a cluster update is applied to the cluster object that is about to be replaced and is lost; a removal that overlaps an update leaves the cluster live and out of the recorded configuration")
 	uh := c.M(pkg, "clusterManager", "UpdateHosts")
 	for _, name := range []string{"AppendClusterHosts", "RemoveClusterHosts", "UpdateClusterHosts"} {
 		fn := c.M(pkg, "clusterManager", name)
@@ -835,5 +837,41 @@ func c09ShutDownPoolClosesReturningClients(c *Ctx) {
 		}
 		c.Check(rule, funcKey(ret)+":no-repool-after-shutdown", ret.Pos(), !bad && !unlooked, "no path puts an open client back while "+flag+" is set",
 			"a client that comes back after Shutdown is put into the idle list of the shut-down pool (the flag is not tested on that path, or an open client passes it): the cluster manager has dropped the pool, the connection is never used and never closed")
+	}
+}
+
+// ---------------------------------------------------------------------------------------------------------------------
+// C04.R17 (N1): what an expression of the configuration evaluates to is not trusted to be a bool. In the Match methods of
+// pkg/router every type assertion on the result of an Evaluate call is the comma-ok form: an expression that compiles
+// but is no condition matches nothing, it does not panic in the router on every request that reaches the route.
+func c04ExpressionResultTestedForBool(c *Ctx) {
+	const rule = "C04.R17"
+	c.Rule(rule, "the result of a configured expression is type-tested with the comma-ok form in Match", 1)
+	pkg := "pkg/router"
+	n := 0
+	ord := ordCounter{}
+	for _, fn := range c.PkgFuncs(pkg) {
+		if fn.Name() != "Match" || fn.Synthetic != "" {
+			continue
+		}
+		forEachInstr(fn, true, func(f *ssa.Function, in ssa.Instruction) {
+			ta, ok := in.(*ssa.TypeAssert)
+			if !ok {
+				return
+			}
+			fromEval := derivesFrom(ta.X, func(v ssa.Value) bool {
+				call, isC := v.(*ssa.Call)
+				return isC && methodName(call.Common()) == "Evaluate"
+			})
+			if !fromEval {
+				return
+			}
+			n++
+			c.Check(rule, ord.next(fn, "expression-result-comma-ok"), ta.Pos(), ta.CommaOk, "the expression result is asserted with the comma-ok form",
+				"Match asserts the type of an expression result without the comma-ok form: an expression that compiles but does not evaluate to a bool (request.host, an arithmetic expression) makes every request that reaches the route panic in the router")
+		})
+	}
+	if n == 0 {
+		c.Fail(rule, pkg+":expression-result-comma-ok", token.NoPos, "no type assertion on an Evaluate result found in a Match method of pkg/router")
 	}
 }
